@@ -71,7 +71,8 @@ def events_for(res, valid: List[int]) -> List[Tuple[int, Dict[str, List[Tuple]],
 
 def case_code(idx: int, res, valid: List[int]) -> Tuple[str, str]:
     r = res["impl"]
-    body = "\n".join(r["body"])
+    lines = r["body"][1:] if r["body"] and r["body"][0] == "{" else r["body"]  # the function's own brace
+    body = "\n".join(lines)
     s = f"struct C{idx} : Base {{\n  {r['col_decl']}\n  void execute() {{\n{body}\n  }}\n"
     s += f"  void go(int ev) {{ tr.f = [this, ev] {{ emit({idx}, ev, {r['col_name']}); }}; execute(); }}\n}};\n"
     m = f"  {{ // {idx}\n"
